@@ -196,3 +196,202 @@ Theorem C17_glue_extend_defaults : forall a n,
 Proof. exact glue_extend_defaults. Qed.
 Print Assumptions C17_glue_extend_defaults.
 Close Scope string_scope.
+
+(* ==================================================================================================== *)
+(** Functions of sorted_array_utils.py / process.py REGENERATED by tools/translate_ext_process2.py (Gen/Process2Glue.v): runs = models.
+    [pw] is the float power, [normal] the recorded answer of numpy.random.normal: both arbitrary. *)
+From TW Require Import Model.GlueLeaves_Process2 Gen.Process2Glue Proofs.GlueProcess2Common Proofs.GlueProcess2SoiProofs Proofs.GlueProcess2AverageProofs Proofs.GlueProcess2OlProofs.
+Open Scope Qc_scope.
+Open Scope string_scope.
+
+(** sum_over_indices(a, indices) for indices >= 0 (ranges that run backwards or past the end are clamped by the code and by
+    the model alike; a negative index wraps in the code: Proofs/GlueProcess2SoiProofs.v, soi_outside_guard) *)
+Theorem C17_glue_sum_over_indices : forall pw normal a idx, forallb (fun z => (0 <=? z)%Z) idx = true ->
+  outcome_arr (call_fun (p2_callf normal) p2_methf no_apply (p2_powf pw) utils2_functions "sum_over_indices"
+     [("a", VArr a); ("indices", VIdxArr idx)]) = Ok (sum_over_indices a (nats idx)).
+Proof. exact glue_sum_over_indices. Qed.
+Print Assumptions C17_glue_sum_over_indices.
+
+(** average(x, y, interval) for interval >= 1; interval = 0 is refused (ZeroDivisionError, an exception outside the model's
+    classes) *)
+Theorem C17_glue_average : forall pw normal x y n, (1 <=? n)%Z = true ->
+  outcome_arr_pair (call_fun (p2_callf normal) p2_methf no_apply (p2_powf pw) process2_functions "average"
+     [("x", VArr x); ("y", VArr y); ("interval", VInt n)]) = Ok (average x y (Z.to_nat n)) /\
+  outcome_arr_pair (call_fun (p2_callf normal) p2_methf no_apply (p2_powf pw) process2_functions "average"
+     [("x", VArr x); ("y", VArr y); ("interval", VInt 0)]) = Raise OtherExn.
+Proof. intros pw normal x y n Hg. split; [exact (glue_average pw normal x y n Hg)|exact (glue_average_zero pw normal x y)]. Qed.
+Print Assumptions C17_glue_average.
+
+(** oversample_linspace(a, num) for num < 2 (the array comes back) or a non-empty array; an empty array with num >= 2 raises
+    IndexError at a[-1] where the model answers [] (oversample_linspace_outside_guard).  The body is the one regenerated in
+    Gen/Process2Glue.v (utils2_functions): the slice `np.linspace(..)[:-1]` of the 2-D array is a call of the leaf
+    `getslice`, which the slice of Gen/UtilsGlue.v (1-D only in Model/GlueFun.v) cannot express. *)
+Theorem C17_glue_oversample_linspace : forall pw normal a num,
+  (num <? 2)%nat || negb (match a with [] => true | _ => false end) = true ->
+  outcome_arr (call_fun (p2_callf normal) p2_methf no_apply (p2_powf pw) utils2_functions "oversample_linspace"
+     [("a", VArr a); ("num", VInt (Z.of_nat num))]) = Ok (oversample_linspace a num).
+Proof. exact glue_oversample_linspace. Qed.
+Print Assumptions C17_glue_oversample_linspace.
+
+(* ==================================================================================================== *)
+(** C17 — class IntervalArray (interval.py): the methods REGENERATED from the source as glue terms (Gen/IntervalGlue.v), run by the
+    interpreter of Model/GlueFun.v with the leaves of Model/GlueLeaves_Interval.v, are the hand-written model Model/Interval.v, and
+    the IntervalArray leaves of the RFA glue proofs ([ivl], [findex_val], [store] at [LocIdx2], [ivl_methf], [rfa_callf]) are
+    these runs.  Statements only; proofs are in Proofs/GlueIntervalProofs.v.
+    [irun f m positional keyword attrs] runs method m allowing calls between methods of the class up to depth f;
+    [obs] = (outcome, the object read back from the final "self.a" / "self.n"); [obj a] = ivl (arr a) (Z.of_nat (isize a)). *)
+From TW Require Import Model.Interval Model.GlueLeaves_Interval Gen.IntervalGlue Proofs.GlueIntervalProofs.
+Open Scope Qc_scope.
+Open Scope string_scope.
+
+(** __init__: a = np.asarray(a), n stored; default n = 1; a list of numbers becomes the array *)
+Theorem C17_glue_interval_init : forall f l n,
+  obs (irun f "__init__" [VArr l; VInt n] [] []) = (ONormal, Some (ivl l n)) /\
+  obs (irun f "__init__" [] [("a", VArr l); ("n", VInt n)] []) = (ONormal, Some (ivl l n)) /\
+  obs (irun f "__init__" [VArr l] [] []) = (ONormal, Some (ivl l 1)) /\
+  obs (irun f "__init__" [VTup (map VNum l); VInt n] [] []) = (ONormal, Some (ivl l n)).
+Proof. exact glue_interval_init. Qed.
+Print Assumptions C17_glue_interval_init.
+
+(** the constructor call IntervalArray(a, n) runs __init__ and gives the object value the RFA glue proofs use *)
+Theorem C17_glue_interval_new : forall f pw sf l n,
+  interval_callf (isub (S f)) "IntervalArray" [VArr l; VInt n] [] = Ok (ivl l n) /\
+  rfa_callf pw sf "IntervalArray" [VArr l; VInt n] [] = interval_callf (isub (S f)) "IntervalArray" [VArr l; VInt n] [].
+Proof. exact glue_interval_new. Qed.
+Print Assumptions C17_glue_interval_new.
+
+(** __getitem__ = iget: an int key k reads a[k], a pair (i, j) reads a[i*n + j], with NumPy's index rule (a flat index f with
+    -len <= f < 0 counts from the end, anything outside -len <= f < len is IndexError); a tuple of another length is IndexError;
+    the object is unchanged *)
+Theorem C17_glue_interval_getitem : forall f a k other, key_ok k other = true ->
+  obs (irun f "__getitem__" [key_val k other] [] (ienv_of a)) = (res_outcome (iget a k), Some (obj a)).
+Proof. exact glue_interval_getitem. Qed.
+Print Assumptions C17_glue_interval_getitem.
+
+(** __setitem__ = iset *)
+Theorem C17_glue_interval_setitem : forall f a k other v, key_ok k other = true ->
+  obs (irun f "__setitem__" [key_val k other; VNum v] [] (ienv_of a)) =
+  match iset a k v with
+  | Ok a' => (ONormal, Some (obj a'))
+  | Raise e => (ORaise e, Some (obj a))
+  end.
+Proof. exact glue_interval_setitem. Qed.
+Print Assumptions C17_glue_interval_setitem.
+
+(** the total accessors of the RFA glue proofs are the regenerated methods exactly where the flat index is in range *)
+Theorem C17_glue_interval_getitem_leaf : forall f a k, is_other k = false ->
+  call_result (irun f "__getitem__" [key_val k []] [] (ienv_of a)) =
+  if flat_ok a k then findex_val (obj a) (key_val k []) else Raise IndexError.
+Proof. exact glue_interval_getitem_leaf. Qed.
+Print Assumptions C17_glue_interval_getitem_leaf.
+
+Theorem C17_glue_interval_setitem_leaf : forall f a i j q en x, assoc x en = Some (obj a) ->
+  let r := irun f "__setitem__" [VTup [VInt i; VInt j]; VNum q] [] (ienv_of a) in
+  if flat_ok a (KPair i j)
+  then snd r = ONormal /\
+       store en (LocIdx2 x i j) (VNum q) = match obj_of_env (fst r) with Some o => Ok ((x, o) :: en) | None => Raise OtherExn end
+  else snd r = ORaise IndexError /\ store en (LocIdx2 x i j) (VNum q) = Ok ((x, obj a) :: en).
+Proof. exact glue_interval_setitem_leaf. Qed.
+Print Assumptions C17_glue_interval_setitem_leaf.
+
+(** nr_of_full_intervals = len // n (n = 0: ZeroDivisionError, written OtherExn), __len__, array *)
+Theorem C17_glue_interval_nr_of_full_intervals : forall f a,
+  obs (irun f "nr_of_full_intervals" [] [] (ienv_of a)) =
+  (if interval_ok a then OReturn (VInt (Z.of_nat (nr_of_full_intervals a))) else ORaise OtherExn, Some (obj a)).
+Proof. exact glue_interval_nr_of_full_intervals. Qed.
+Print Assumptions C17_glue_interval_nr_of_full_intervals.
+
+Theorem C17_glue_interval_len : forall f a,
+  obs (irun f "__len__" [] [] (ienv_of a)) = (OReturn (VInt (Z.of_nat (length (arr a)))), Some (obj a)).
+Proof. exact glue_interval_len. Qed.
+Print Assumptions C17_glue_interval_len.
+
+Theorem C17_glue_interval_array : forall f a,
+  obs (irun f "array" [] [] (ienv_of a)) = (OReturn (VArr (arr a)), Some (obj a)).
+Proof. exact glue_interval_array. Qed.
+Print Assumptions C17_glue_interval_array.
+
+Theorem C17_glue_interval_methods_leaf : forall f a, interval_ok a = true ->
+  interval_methf (isub (S f)) (obj a) "nr_of_full_intervals" [] = ivl_methf (obj a) "nr_of_full_intervals" [] /\
+  interval_methf (isub (S f)) (obj a) ".array" [] = ivl_methf (obj a) ".array" [] /\
+  ivl_methf (obj a) "nr_of_full_intervals" [] = call_result (irun f "nr_of_full_intervals" [] [] (ienv_of a)) /\
+  ivl_methf (obj a) ".array" [] = call_result (irun f "array" [] [] (ienv_of a)).
+Proof. exact glue_interval_methods_leaf. Qed.
+Print Assumptions C17_glue_interval_methods_leaf.
+
+Theorem C17_glue_interval_rfa_methf_leaf : forall gpow sx sy sn a m,
+  rfa_methf gpow sx sy sn (obj a) m [] = ivl_methf (obj a) m [].
+Proof. exact glue_interval_rfa_methf_leaf. Qed.
+Print Assumptions C17_glue_interval_rfa_methf_leaf.
+
+(** extend_linspace / extend_constant: self.a becomes the helper's result for the object's own n and the given direction
+    (keyword, positional, default 'both'); self.n stays *)
+Theorem C17_glue_interval_extend_linspace : forall f a d,
+  obs (irun f "extend_linspace" [] [("direction", VStrV (direction_name d))] (ienv_of a)) = (ONormal, Some (obj (iextend_linspace a d))) /\
+  obs (irun f "extend_linspace" [VStrV (direction_name d)] [] (ienv_of a)) = (ONormal, Some (obj (iextend_linspace a d))) /\
+  obs (irun f "extend_linspace" [] [] (ienv_of a)) = (ONormal, Some (obj (iextend_linspace a Both))).
+Proof. exact glue_interval_extend_linspace. Qed.
+Print Assumptions C17_glue_interval_extend_linspace.
+
+Theorem C17_glue_interval_extend_constant : forall f a d,
+  obs (irun f "extend_constant" [] [("direction", VStrV (direction_name d))] (ienv_of a)) = (ONormal, Some (obj (iextend_constant a d))) /\
+  obs (irun f "extend_constant" [VStrV (direction_name d)] [] (ienv_of a)) = (ONormal, Some (obj (iextend_constant a d))) /\
+  obs (irun f "extend_constant" [] [] (ienv_of a)) = (ONormal, Some (obj (iextend_constant a Both))).
+Proof. exact glue_interval_extend_constant. Qed.
+Print Assumptions C17_glue_interval_extend_constant.
+
+Theorem C17_glue_interval_extend_leaf : forall f pw sf a,
+  rfa_callf pw sf ".extend_linspace!" [obj a] [("direction", VStrV "both")] =
+    match obs (irun f "extend_linspace" [] [("direction", VStrV "both")] (ienv_of a)) with
+    | (ONormal, Some o) => Ok o | (ORaise e, _) => Raise e | _ => Raise OtherExn end /\
+  rfa_callf pw sf ".extend_constant!" [obj a] [("direction", VStrV "both")] =
+    match obs (irun f "extend_constant" [] [("direction", VStrV "both")] (ienv_of a)) with
+    | (ONormal, Some o) => Ok o | (ORaise e, _) => Raise e | _ => Raise OtherExn end.
+Proof. exact glue_interval_extend_leaf. Qed.
+Print Assumptions C17_glue_interval_extend_leaf.
+
+(** oversample(num, method) returns a new object with n * num and method(self.a, num); self is unchanged *)
+Theorem C17_glue_interval_oversample : forall f a num,
+  obs (irun (S f) "oversample" [VInt (Z.of_nat num); VOpaque "oversample_linspace"] [] (ienv_of a))
+    = (OReturn (obj (ioversample_linspace a num)), Some (obj a)) /\
+  obs (irun (S f) "oversample" [VInt (Z.of_nat num); VOpaque "oversample_piecewise_constant"] [] (ienv_of a))
+    = (OReturn (obj (ioversample_pc a num)), Some (obj a)).
+Proof. exact glue_interval_oversample. Qed.
+Print Assumptions C17_glue_interval_oversample.
+
+Theorem C17_glue_interval_oversample_linspace : forall f a num,
+  obs (irun (S (S f)) "oversample_linspace" [VInt (Z.of_nat num)] [] (ienv_of a)) = (OReturn (obj (ioversample_linspace a num)), Some (obj a)).
+Proof. exact glue_interval_oversample_linspace. Qed.
+Print Assumptions C17_glue_interval_oversample_linspace.
+
+Theorem C17_glue_interval_oversample_piecewise : forall f a num,
+  obs (irun (S (S f)) "oversample_piecewise" [VInt (Z.of_nat num)] [] (ienv_of a)) = (OReturn (obj (ioversample_pc a num)), Some (obj a)).
+Proof. exact glue_interval_oversample_piecewise. Qed.
+Print Assumptions C17_glue_interval_oversample_piecewise.
+
+(** to_2d_array: n columns, row-major, the last row padded with NaN = Model.Interval.to_2d_array (n = 0: ZeroDivisionError) *)
+Theorem C17_glue_interval_to_2d_array : forall f a,
+  obs (irun f "to_2d_array" [] [] (ienv_of a)) =
+  (if interval_ok a then OReturn (arr2 (Z.of_nat (isize a)) (to_2d_array a)) else ORaise OtherExn, Some (obj a)).
+Proof. exact glue_interval_to_2d_array. Qed.
+Print Assumptions C17_glue_interval_to_2d_array.
+
+(** to_2d_array_closed_intervals = to_2d_closed on arrays with at least one element (drop_last by keyword, positionally, default True) *)
+Theorem C17_glue_interval_to_2d_closed : forall f a dl, closed_ok a = true ->
+  obs (irun (S f) "to_2d_array_closed_intervals" [] [("drop_last", VBoolV dl)] (ienv_of a)) =
+    (OReturn (arr2 (Z.of_nat (isize a) + 1) (to_2d_closed a dl)), Some (obj a)) /\
+  obs (irun (S f) "to_2d_array_closed_intervals" [VBoolV dl] [] (ienv_of a)) =
+    (OReturn (arr2 (Z.of_nat (isize a) + 1) (to_2d_closed a dl)), Some (obj a)) /\
+  obs (irun (S f) "to_2d_array_closed_intervals" [] [] (ienv_of a)) =
+    (OReturn (arr2 (Z.of_nat (isize a) + 1) (to_2d_closed a true)), Some (obj a)).
+Proof. exact glue_interval_to_2d_closed. Qed.
+Print Assumptions C17_glue_interval_to_2d_closed.
+
+(** on the empty array the code raises ValueError (shapes (0, n) and (1, 1) along axis 1) where the model answers [] *)
+Theorem C17_glue_interval_to_2d_closed_empty : forall f n dl, (1 <= n)%nat ->
+  obs (irun (S f) "to_2d_array_closed_intervals" [] [("drop_last", VBoolV dl)] (ienv_of {| arr := []; isize := n |})) =
+    (ORaise ValueError, Some (obj {| arr := []; isize := n |})) /\
+  to_2d_closed {| arr := []; isize := n |} dl = [].
+Proof. exact glue_interval_to_2d_closed_empty. Qed.
+Print Assumptions C17_glue_interval_to_2d_closed_empty.
+
